@@ -57,8 +57,8 @@ impl Property for C12 {
     }
     fn runs(&self, tier: Tier) -> u64 {
         match tier {
-            Tier::Quick => 3000,
-            Tier::Thorough => 30000,
+            Tier::Quick => 30000,
+            Tier::Thorough => 300000,
         }
     }
     fn rule(&self) -> &'static str {
